@@ -326,6 +326,11 @@ class ArgumentParser(ParserDeprecations, ActionsContainer, ArgumentLinking, argp
 
         return cfg, unk
 
+    def _check_value(self, action, value):
+        if isinstance(action, ActionTypeHint) and action.choices is not None:
+            return  # compared with the choices after conversion to the type, see _check_value_key
+        super()._check_value(action, value)
+
     def _parse_optional(self, arg_string):
         subclass_arg = ActionTypeHint.parse_argv_item(arg_string)
         if subclass_arg:
